@@ -7,6 +7,7 @@ import (
 	"strings"
 	"time"
 
+	"github.com/enfein/mieru/v3/pkg/protocol"
 	"verifharness/core"
 	"verifharness/sim"
 )
@@ -90,10 +91,79 @@ func genUDPCase(r *rand.Rand, budget int, handshakeLoss bool) udpCase {
 }
 
 type udpOutcome struct {
-	tr    *sim.TransferResult
-	audit *sim.UDPAudit
-	fails []string
-	setup error
+	tr      *sim.TransferResult
+	audit   *sim.UDPAudit
+	fails   []string
+	setup   error
+	sampler *sim.WindowSampler
+}
+
+// udpContentProblems compares, for every (session, direction), the payloads of the numbered segments
+// as FIRST put on the wire, concatenated in sequence order, with the bytes the application wrote
+// (deterministic content of sim.RunTransfer: a 4-byte script tag, then the generator's stream).
+// It also returns how many sessions could be attributed to a script.
+func udpContentProblems(k udpCase, a *sim.UDPAudit) (problems []string, attributed int) {
+	script := map[string]int{} // session id (hex) -> script index
+	for name, ps := range a.Payloads {
+		if !strings.HasSuffix(name, "/c2s") {
+			continue
+		}
+		var head []byte
+		for _, p := range ps {
+			head = append(head, p...)
+			if len(head) >= 4 {
+				break
+			}
+		}
+		if len(head) >= 4 {
+			if idx := int(uint32(head[0])<<24 | uint32(head[1])<<16 | uint32(head[2])<<8 | uint32(head[3])); idx >= 0 && idx < len(k.Scripts) {
+				script[strings.TrimSuffix(name, "/c2s")] = idx
+			}
+		}
+	}
+	for name, ps := range a.Payloads {
+		sid, dir := name[:strings.Index(name, "/")], 0
+		if strings.HasSuffix(name, "/s2c") {
+			dir = 1
+		}
+		idx, ok := script[sid]
+		if !ok {
+			continue
+		}
+		if dir == 0 {
+			attributed++
+		}
+		sc := k.Scripts[idx]
+		want := sumInts(sc.ServerWrites)
+		if dir == 0 {
+			want = sumInts(sc.ClientWrites) + 4
+		}
+		pos := 0
+	segs:
+		for seq, p := range ps {
+			for i, b := range p {
+				var e byte
+				switch {
+				case dir == 0 && pos < 4:
+					e = byte(uint32(idx) >> (8 * uint(3-pos)))
+				case dir == 0:
+					e = sim.StreamByte(k.Seed, idx, 0, pos-4)
+				default:
+					e = sim.StreamByte(k.Seed, idx, 1, pos)
+				}
+				if pos >= want {
+					problems = append(problems, fmt.Sprintf("session %s seq %d: the wire carries more than the %d bytes the application wrote", name, seq, want))
+					break segs
+				}
+				if b != e {
+					problems = append(problems, fmt.Sprintf("session %s seq %d byte %d (stream offset %d): first transmission carries %#02x, the application wrote %#02x", name, seq, i, pos, b, e))
+					break segs
+				}
+				pos++
+			}
+		}
+	}
+	return problems, attributed
 }
 
 // runUDPCase executes one case on fresh endpoints and audits the wire.
@@ -106,8 +176,11 @@ func runUDPCase(k udpCase) udpOutcome {
 	}
 	defer bgClose.Go(w.Close)
 	w.Net.Plan = k.Faults.Plan(fmt.Sprintf("10.8.0.1:%d", 8964))
-	tr := sim.RunTransfer(w, k.Scripts, k.Seed, time.Duration(k.TimeoutS)*time.Second)
-	return udpOutcome{tr: tr, audit: w.AuditUDP(), fails: tr.Check(k.Scripts)}
+	ob := sim.Observe(w)
+	sampler := sim.StartWindowSampler(ob, int(protocol.VerifConsts()["segmentTreeCapacity"]), 500*time.Microsecond)
+	tr := sim.RunTransfer(ob, k.Scripts, k.Seed, time.Duration(k.TimeoutS)*time.Second)
+	sampler.Stop()
+	return udpOutcome{tr: tr, audit: w.AuditUDP(), fails: tr.Check(k.Scripts), sampler: sampler}
 }
 
 // udpRun runs a case for property prop and reports the predicates that belong to that property.
@@ -156,8 +229,33 @@ func udpRun(c *core.Ctx, k udpCase, prop string) {
 			c.Hist("segment_type", fmt.Sprint(t))
 		}
 	}
+	c.Hist("window_samples", core.SizeBucket(o.sampler.Samples))
+	c.Hist("max_sendbuf_seen", core.SizeBucket(o.sampler.MaxSendBuf))
+	c.Hist("max_recv_held_seen", core.SizeBucket(o.sampler.MaxRecvHeld))
+	content, attributed := udpContentProblems(k, o.audit)
+	c.Hist("sessions_attributed_to_script", fmt.Sprint(attributed))
+	// the acceptor's final state must agree with what the readers saw: a direction whose reader got
+	// every byte has had every numbered segment handed over in order
+	finalOK := func(name, reply string) string {
+		var nr, q, lo, n int
+		if _, err := fmt.Sscanf(reply, "ok %d %d %d %d", &nr, &q, &lo, &n); err != nil {
+			return ""
+		}
+		if lo > nr || nr > q || q > n {
+			return fmt.Sprintf("history of %s: the model ends with lo %d, nextRecv %d, qLo %d, |segs| %d", name, lo, nr, q, n)
+		}
+		if !o.tr.Stalled && len(o.fails) == 0 && nr != n {
+			return fmt.Sprintf("history of %s: every reader received everything, yet the model has released only %d of %d segments", name, nr, n)
+		}
+		return ""
+	}
 	switch prop {
 	case "C02":
+		for key, what := range o.sampler.Problems {
+			if key == "receive-buffers-exceed-capacity" || key == "send-buffer-full" {
+				c.Violate("C02/udp/"+key, what, k)
+			}
+		}
 		for _, f := range o.fails {
 			kind := "delivery"
 			if o.tr.Stalled {
@@ -171,12 +269,28 @@ func udpRun(c *core.Ctx, k udpCase, prop string) {
 			reply := c.Model.Ask("arq-run %s", strings.Join(h, " "))
 			if !strings.HasPrefix(reply, "ok ") {
 				c.Disagree("C02/corr/arq-acceptor", fmt.Sprintf("history of %s rejected by the model: %s", name, reply), k)
+			} else if bad := finalOK(name, reply); bad != "" {
+				c.Disagree("C02/corr/arq-final-state", bad, k)
 			}
 		}
 		for _, u := range o.audit.Undecodable {
 			c.Disagree("C02/corr/wire-undecodable", u, k)
 		}
 	case "C13":
+		for key, what := range o.sampler.Problems {
+			if key == "sender-discarded-unreceived-segment" || key == "receiver-ahead-of-sender-numbering" {
+				c.Violate("C13/"+key, what, k)
+			}
+		}
+		for _, x := range content {
+			c.Violate("C13/content-differs-from-application-write", x, k)
+		}
+		for _, x := range o.audit.CloseDrift {
+			c.Violate("C13/close-request-retransmission-changed", x, k)
+		}
+		if o.audit.CloseRetransmitted > 0 {
+			c.Hist("close_request_retransmissions", core.SizeBucket(o.audit.CloseRetransmitted))
+		}
 		for _, x := range o.audit.AckAhead {
 			c.Violate("C13/ack-ahead-of-receipt", x, k)
 		}
@@ -191,6 +305,8 @@ func udpRun(c *core.Ctx, k udpCase, prop string) {
 			reply := c.Model.Ask("arq-run %s", strings.Join(h, " "))
 			if !strings.HasPrefix(reply, "ok ") {
 				c.Disagree("C13/corr/arq-acceptor", fmt.Sprintf("history of %s rejected by the model: %s", name, reply), k)
+			} else if bad := finalOK(name, reply); bad != "" {
+				c.Disagree("C13/corr/arq-final-state", bad, k)
 			}
 		}
 		for _, u := range o.audit.Undecodable {
